@@ -206,6 +206,17 @@ type e6Outcome struct {
 	interp   *e6Interp
 }
 
+// AtomKeys lists the atoms of the path condition in a fixed (sorted) order: rules classify atoms one by one and must not
+// depend on Go's map iteration order when two atoms fall into the same class.
+func (o *e6Outcome) AtomKeys() []string {
+	ks := make([]string, 0, len(o.Assign))
+	for k := range o.Assign {
+		ks = append(ks, k)
+	}
+	sort.Strings(ks)
+	return ks
+}
+
 // Val evaluates an SSA value in the final state of the run (for phi edges at the region's exit).
 func (o *e6Outcome) Val(v ssa.Value) *Sym { return o.interp.val(v) }
 
